@@ -1,7 +1,7 @@
 (** Options/ComposeProofs.v — towards [resolve = Accepted <-> well_formed_10]: what an accepted
     field leaves behind (its flatten flag is the reading's), the options of the magic members that
     read options, and the fold over the fields of a struct body. *)
-From DarlingModel Require Import Options.Resolve Options.FieldOrderProofs Spec.C10 Options.SpecBridge.
+From DarlingModel Require Import Options.Resolve Options.FieldOrderProofs Options.VariantOrderProofs Spec.C10 Options.SpecBridge.
 From Coq Require Import Permutation ZifyBool Lia.
 Local Open Scope string_scope.
 Local Open Scope list_scope.
@@ -615,5 +615,342 @@ Section Compose.
       split; [intros [c0 [b0 H]]; discriminate|].
       intros [W [items [A D]]]. exfalso. apply andb_true_iff in W as [W _]. repeat rewrite andb_true_iff in W. destruct W as [[[W _] _] _].
       assert (X : e :: es = []) by (apply CC; split; [exact W|exists items; auto]). discriminate.
+  Qed.
+
+  (** *** enum receivers (FromMeta) *)
+  Notation variant_step := (variant_step reparse reparse_preds).
+  Notation from_variant := (from_variant reparse reparse_preds).
+  Notation variant_fields := (variant_fields reparse reparse_preds).
+  Notation val_is := (val_is reparse reparse_preds).
+
+  Definition word_true (v : vopts) : bool := match v_word v with Some (true, _) => true | _ => false end.
+  Definition skip_true (v : vopts) : bool := match v_skip v with Some true => true | _ => false end.
+
+  Lemma variant_step_word v mi : is_meta mi = true -> snd (variant_step v mi) = None ->
+    word_true (fst (variant_step v mi)) = (word_true v || (mpath_is mi "word" && val_is (TOption (TSpanned TBool)) true mi))%bool.
+  Proof.
+    intros M. unfold Resolve.variant_step, word_true, Spec.C10.val_is.
+    destruct (mpath_is mi "rename") eqn:N1.
+    { rewrite (names_excl mi "rename" "word" ltac:(discriminate) N1). cbn [andb]. rewrite orb_false_r.
+      destruct (v_attr_name v); cbn [fst snd]; try discriminate.
+      destruct (conv (TOption TString) mi) as [[]| |]; cbn [fst snd]; try discriminate; try (destruct v0; cbn [fst snd]; try discriminate; reflexivity). }
+    destruct (mpath_is mi "skip") eqn:N2.
+    { rewrite (names_excl mi "skip" "word" ltac:(discriminate) N2). cbn [andb]. rewrite orb_false_r.
+      destruct (v_skip v); cbn [fst snd]; try discriminate.
+      destruct (conv (TOption TBool) mi) as [x| |]; cbn [fst snd]; try discriminate. destruct (as_bool x); cbn [fst snd]; try discriminate. reflexivity. }
+    destruct (mpath_is mi "word") eqn:N3; [|cbn [fst snd]; discriminate].
+    cbn [andb]. destruct (v_word v) as [[b0 s0]|]; cbn [fst snd]; try discriminate.
+    destruct (v_style v); cbn [fst snd]; try discriminate.
+    destruct (conv (TOption (TSpanned TBool)) mi) as [x| |]; cbn [fst snd]; try discriminate.
+    destruct x; cbn [fst snd]; try discriminate. destruct x; cbn [fst snd]; try discriminate. destruct x; cbn [fst snd]; try discriminate.
+    intros _. cbn [v_word as_bool]. destruct b; reflexivity.
+  Qed.
+
+  Lemma variant_step_skip v mi : is_meta mi = true -> snd (variant_step v mi) = None ->
+    skip_true (fst (variant_step v mi)) = (skip_true v || (mpath_is mi "skip" && val_is (TOption TBool) true mi))%bool.
+  Proof.
+    intros M. unfold Resolve.variant_step, skip_true, Spec.C10.val_is.
+    destruct (mpath_is mi "rename") eqn:N1.
+    { rewrite (names_excl mi "rename" "skip" ltac:(discriminate) N1). cbn [andb]. rewrite orb_false_r.
+      destruct (v_attr_name v); cbn [fst snd]; try discriminate.
+      destruct (conv (TOption TString) mi) as [[]| |]; cbn [fst snd]; try discriminate; try (destruct v0; cbn [fst snd]; try discriminate; reflexivity). }
+    destruct (mpath_is mi "skip") eqn:N2.
+    { cbn [andb]. destruct (v_skip v) as [b0|]; cbn [fst snd]; try discriminate.
+      destruct (conv (TOption TBool) mi) as [x| |]; cbn [fst snd]; try discriminate. destruct (as_bool x) as [b|]; cbn [fst snd]; try discriminate.
+      intros _. cbn [v_skip]. destruct b; reflexivity. }
+    cbn [andb]. rewrite orb_false_r.
+    destruct (mpath_is mi "word") eqn:N3; [|cbn [fst snd]; discriminate].
+    destruct (v_word v) as [[b0 s0]|]; cbn [fst snd]; try discriminate.
+    destruct (v_style v); cbn [fst snd]; try discriminate.
+    destruct (conv (TOption (TSpanned TBool)) mi) as [x| |]; cbn [fst snd]; try discriminate.
+    destruct x; cbn [fst snd]; try discriminate. destruct x; cbn [fst snd]; try discriminate. destruct x; cbn [fst snd]; try discriminate.
+    reflexivity.
+  Qed.
+
+  Lemma variant_fields_spec cd fs : Forall (fun rf => Forall attr_shaped (rf_attrs rf)) fs ->
+    (snd (variant_fields cd fs) = [] <-> forallb (fun rf => field_wf (rf_attrs rf)) fs = true)
+    /\ (forallb (fun rf => field_wf (rf_attrs rf)) fs = true -> fst (variant_fields cd fs) = map (fun rf => fst (from_field cd rf)) fs)
+    /\ (snd (variant_fields cd fs) = [] \/ exists e es, snd (variant_fields cd fs) = e :: es).
+  Proof.
+    induction 1 as [|rf r SH _ IH]; cbn [Resolve.variant_fields forallb map]; [repeat split; auto|].
+    pose proof (field_chain_is_the_reading reparse reparse_preds rf SH) as FC.
+    assert (FE : snd (from_field cd rf) = snd (parse_attributes field_step (field0 rf) (rf_attrs rf))).
+    { unfold Resolve.from_field. destruct (parse_attributes field_step (field0 rf) (rf_attrs rf)); reflexivity. }
+    destruct (from_field cd rf) as [f errs] eqn:FF. cbn [snd fst] in *. rewrite <- FE in FC.
+    destruct errs as [|e es].
+    - rewrite (proj1 FC eq_refl). cbn [andb]. destruct (variant_fields cd r) as [fs' errs']. cbn [fst snd] in *.
+      destruct IH as [I1 [I2 I3]]. split; [exact I1|]. split; [|exact I3]. intros W. now rewrite (I2 W).
+    - assert (W : field_wf (rf_attrs rf) = false) by (destruct (field_wf (rf_attrs rf)); [assert (X : e :: es = []) by (now apply FC); discriminate|reflexivity]).
+      rewrite W. cbn [andb fst snd]. repeat split; try discriminate. right. eauto.
+  Qed.
+
+  Definition variant_own_wf (rv : rvariant) : Prop :=
+    exists items, all_items (rv_attrs rv) = Some items
+                  /\ variant_items_wf reparse reparse_preds (is_unit (rv_style rv)) items = true.
+
+  (** an accepted variant, and what it carries *)
+  Theorem from_variant_spec rv :
+    Forall attr_shaped (rv_attrs rv) -> Forall (fun rf => Forall attr_shaped (rf_attrs rf)) (rv_fields rv) ->
+    ((exists v, from_variant false rv = (Some v, []))
+     <-> variant_own_wf rv /\ forallb (fun rf => field_wf (rf_attrs rf)) (rv_fields rv) = true
+         /\ (match rv_style rv with StTuple => Nat.eqb (List.length (rv_fields rv)) 1 || variant_skipped reparse reparse_preds rv | _ => true end) = true)
+    /\ (forall v, from_variant false rv = (Some v, []) ->
+          word_true v = variant_has_word reparse reparse_preds rv
+          /\ v_fields v = map (fun rf => fst (from_field false rf)) (rv_fields rv))
+    /\ (forall es, from_variant false rv = (None, es) -> es <> []).
+  Proof.
+    intros SHv SHf. unfold Resolve.from_variant.
+    pose proof (variant_chain_is_the_reading reparse reparse_preds (rv_ident rv) (rv_style rv) (rv_attrs rv) SHv) as VC.
+    destruct (parse_attributes variant_step (mkV (rv_ident rv) None None None (rv_style rv) []) (rv_attrs rv)) as [v errs] eqn:PA. cbn [snd] in VC.
+    destruct errs as [|e es].
+    - destruct (proj1 VC eq_refl) as [items [A OW]].
+      assert (E : snd (parse_attributes variant_step (mkV (rv_ident rv) None None None (rv_style rv) []) (rv_attrs rv)) = []) by now rewrite PA.
+      destruct (all_items_lists _ _ A) as [L ->].
+      (* what the chain recorded *)
+      assert (RW : word_true v = variant_has_word reparse reparse_preds rv /\ skip_true v = variant_skipped reparse reparse_preds rv).
+      { unfold Spec.C10.variant_has_word, Spec.C10.variant_skipped. rewrite A. unfold parse_attributes in PA, E.
+        rewrite (VariantOrderProofs.parse_attributes_flat_v reparse reparse_preds (rv_attrs rv) L) in PA, E.
+        pose proof (flat_items_meta (rv_attrs rv) L) as M. split.
+        - pose proof (tracked_fold variant_step word_true "word") as T. clear T.
+          assert (G : forall items0, Forall (fun mi => is_meta mi = true) items0 -> forall v0 errs0,
+                        snd (fold_left (items_step variant_step) items0 (v0, errs0)) = [] ->
+                        word_true (fst (fold_left (items_step variant_step) items0 (v0, errs0)))
+                        = (word_true v0 || existsb (fun mi => mpath_is mi "word" && val_is (TOption (TSpanned TBool)) true mi) items0)%bool).
+          { intros items0 M0. induction M0 as [|mi r Hm _ IH]; intros v0 errs0 E0; cbn [fold_left existsb]; [now rewrite orb_false_r|].
+            cbn [fold_left] in E0.
+            assert (St : items_step variant_step (v0, errs0) mi = (fst (variant_step v0 mi), errs0 ++ errs_of (snd (variant_step v0 mi)))).
+            { destruct mi; cbn [is_meta] in Hm; try discriminate; cbn [items_step]; destruct (variant_step v0 _); reflexivity. }
+            rewrite St in *. rewrite (IH _ _ E0).
+            destruct (snd (variant_step v0 mi)) as [e|] eqn:O.
+            - exfalso. destruct (items_fold_prefix variant_step r (fst (variant_step v0 mi)) (errs0 ++ errs_of (Some e))) as [m Hm2].
+              rewrite Hm2 in E0. apply app_eq_nil in E0 as [E0 _]. apply app_eq_nil in E0 as [_ E0]. discriminate.
+            - rewrite (variant_step_word v0 mi Hm O). now rewrite orb_assoc. }
+          specialize (G _ M _ [] E). rewrite PA in G. cbn [fst] in G. exact G.
+        - assert (G : forall items0, Forall (fun mi => is_meta mi = true) items0 -> forall v0 errs0,
+                        snd (fold_left (items_step variant_step) items0 (v0, errs0)) = [] ->
+                        skip_true (fst (fold_left (items_step variant_step) items0 (v0, errs0)))
+                        = (skip_true v0 || existsb (fun mi => mpath_is mi "skip" && val_is (TOption TBool) true mi) items0)%bool).
+          { intros items0 M0. induction M0 as [|mi r Hm _ IH]; intros v0 errs0 E0; cbn [fold_left existsb]; [now rewrite orb_false_r|].
+            cbn [fold_left] in E0.
+            assert (St : items_step variant_step (v0, errs0) mi = (fst (variant_step v0 mi), errs0 ++ errs_of (snd (variant_step v0 mi)))).
+            { destruct mi; cbn [is_meta] in Hm; try discriminate; cbn [items_step]; destruct (variant_step v0 _); reflexivity. }
+            rewrite St in *. rewrite (IH _ _ E0).
+            destruct (snd (variant_step v0 mi)) as [e|] eqn:O.
+            - exfalso. destruct (items_fold_prefix variant_step r (fst (variant_step v0 mi)) (errs0 ++ errs_of (Some e))) as [m Hm2].
+              rewrite Hm2 in E0. apply app_eq_nil in E0 as [E0 _]. apply app_eq_nil in E0 as [_ E0]. discriminate.
+            - rewrite (variant_step_skip v0 mi Hm O). now rewrite orb_assoc. }
+          specialize (G _ M _ [] E). rewrite PA in G. cbn [fst] in G. exact G. }
+      destruct RW as [RW RS].
+      destruct (variant_fields_spec false (rv_fields rv) SHf) as [F1 [F2 F3]].
+      destruct (variant_fields false (rv_fields rv)) as [fs ferrs]. cbn [fst snd] in *.
+      assert (OWN : variant_own_wf rv) by (exists (flat_items (rv_attrs rv)); auto).
+      destruct ferrs as [|fe fes].
+      + pose proof (proj1 F1 eq_refl) as FW. pose proof (F2 FW) as FS. subst fs. rewrite map_length.
+        fold (skip_true v). rewrite RS.
+        destruct (rv_style rv); cbn [andb negb]; try (repeat split; [eauto|intros _; eauto|intros v0 [= <-]; cbn [v_word v_fields]; auto|intros v0 [= <-]; auto|intros es [=]]);
+          try (split; [split; [intros _; auto|intros _; eauto]|split; [intros v0 [= <-]; unfold word_true in *; cbn [v_word v_fields]; auto|intros es [=]]]).
+        destruct (Nat.eqb (List.length (rv_fields rv)) 1); cbn [negb andb orb].
+        * split; [split; [intros _; auto|intros _; eauto]|split; [intros v0 [= <-]; unfold word_true in *; cbn [v_word v_fields]; auto|intros es [=]]].
+        * destruct (variant_skipped reparse reparse_preds rv); cbn [negb].
+          -- split; [split; [intros _; auto|intros _; eauto]|split; [intros v0 [= <-]; unfold word_true in *; cbn [v_word v_fields]; auto|intros es [=]]].
+          -- split; [split; [intros [v0 H]; discriminate|intros [_ [_ H]]; discriminate]|split; [intros v0 H; discriminate|intros es [= <-]; discriminate]].
+      + assert (FW : forallb (fun rf => field_wf (rf_attrs rf)) (rv_fields rv) = false).
+        { destruct (forallb _ (rv_fields rv)); [assert (X : fe :: fes = []) by (now apply F1); discriminate|reflexivity]. }
+        rewrite FW. split; [split; [intros [v0 H]; discriminate|intros [_ [H _]]; discriminate]|split; [intros v0 H; discriminate|intros es [= <-]; discriminate]].
+    - split; [split; [intros [v0 H]; discriminate|]|split; [intros v0 H; discriminate|intros es0 [= <-]; discriminate]].
+      intros [[items [A OW]] _]. exfalso. assert (X : e :: es = []) by (apply VC; eauto). discriminate.
+  Qed.
+
+  Notation variant_wf := (variant_wf reparse reparse_preds).
+  Notation variant_has_word := (variant_has_word reparse reparse_preds).
+  Notation variant_skipped := (variant_skipped reparse reparse_preds).
+
+  Definition variant_accepted (rv : rvariant) : Prop :=
+    variant_own_wf rv /\ forallb (fun rf => field_wf (rf_attrs rf)) (rv_fields rv) = true
+    /\ (match rv_style rv with StTuple => Nat.eqb (List.length (rv_fields rv)) 1 || variant_skipped rv | _ => true end) = true.
+
+  Lemma variant_wf_split rv :
+    variant_wf rv = true <->
+    variant_accepted rv /\ (List.length (filter (fun rf => is_flatten_field (rf_attrs rf)) (rv_fields rv)) <= 1)%nat.
+  Proof.
+    unfold Spec.C10.variant_wf, variant_accepted, variant_own_wf, variant_items_wf, vnames.
+    destruct (all_items (rv_attrs rv)) as [items|].
+    - rewrite !andb_true_iff, Nat.leb_le. split.
+      + intros [[[[[[A B] C] D] E] F] G]. split; [split; [|split; [exact E|exact G]]|exact F].
+        exists items. split; [reflexivity|]. rewrite A, B, C. cbn [andb]. unfold is_unit. exact D.
+      + intros [[[x [[= <-] W]] [E G]] F]. repeat rewrite andb_true_iff in W. destruct W as [[[A B] C] D].
+        unfold is_unit in D. repeat split; auto.
+    - split; [discriminate|]. intros [[[x [[=] _]] _] _].
+  Qed.
+
+  Lemma from_variant_total rv :
+    (exists v, from_variant false rv = (Some v, [])) \/ (exists es, from_variant false rv = (None, es)).
+  Proof.
+    unfold Resolve.from_variant. destruct (parse_attributes variant_step _ (rv_attrs rv)) as [v [|e es]]; [|eauto].
+    destruct (variant_fields false (rv_fields rv)) as [fs [|fe fes]]; [|eauto].
+    destruct (_ && _ && _)%bool; eauto.
+  Qed.
+
+  (** the fold over the variants *)
+  Definition vstep (acc : list vopts * list err) (rv : rvariant) : list vopts * list err :=
+    let '(vs, errs) := acc in
+    match from_variant false rv with
+    | (Some v, _) => (vs ++ [v], errs)
+    | (None, es) => (vs, errs ++ es)
+    end.
+
+  Lemma vfold_prefix rvs : forall vs errs, exists more, snd (fold_left vstep rvs (vs, errs)) = errs ++ more.
+  Proof.
+    induction rvs as [|rv r IH]; intros vs errs; cbn [fold_left]; [exists []; now rewrite app_nil_r|].
+    unfold vstep at 2. destruct (from_variant false rv) as [[v|] es].
+    - apply IH.
+    - destruct (IH vs (errs ++ es)) as [m Hm]. rewrite Hm, <- app_assoc. eauto.
+  Qed.
+
+  Theorem variants_fold_spec rvs :
+    Forall (fun rv => Forall attr_shaped (rv_attrs rv) /\ Forall (fun rf => Forall attr_shaped (rf_attrs rf)) (rv_fields rv)) rvs ->
+    forall vs0,
+      (snd (fold_left vstep rvs (vs0, [])) = [] <-> Forall variant_accepted rvs)
+      /\ (Forall variant_accepted rvs ->
+          exists vs, fst (fold_left vstep rvs (vs0, [])) = vs0 ++ vs
+                     /\ Forall2 (fun rv v => word_true v = variant_has_word rv
+                                            /\ v_fields v = map (fun rf => fst (from_field false rf)) (rv_fields rv)) rvs vs).
+  Proof.
+    induction 1 as [|rv r [SHv SHf] _ IH]; intros vs0; cbn [fold_left].
+    - split; [split; [constructor|reflexivity]|]. intros _. exists []. rewrite app_nil_r. split; [reflexivity|constructor].
+    - destruct (from_variant_spec rv SHv SHf) as [S1 [S2 S3]]. unfold vstep at 2 4.
+      destruct (from_variant_total rv) as [[v Hv]|[es Hes]].
+      + rewrite Hv. destruct (IH (vs0 ++ [v])) as [I1 I2]. pose proof (proj1 S1 (ex_intro _ v Hv)) as ACC. split.
+        * rewrite I1. split; [intros F; constructor; assumption|intros F; now inversion F].
+        * intros F. inversion F as [|? ? _ Fr]; subst. destruct (I2 Fr) as [vs [E FF]].
+          exists (v :: vs). rewrite E, <- app_assoc. split; [reflexivity|]. constructor; [now apply S2|exact FF].
+      + rewrite Hes. pose proof (S3 es Hes) as NE. cbn [app]. split.
+        * split.
+          -- intros E. exfalso. destruct (vfold_prefix r vs0 es) as [m Hm]. rewrite Hm in E. apply app_eq_nil in E as [E _]. contradiction.
+          -- intros F. exfalso. inversion F as [|? ? ACC _]; subst. destruct (proj2 S1 ACC) as [v Hv]. congruence.
+        * intros F. exfalso. inversion F as [|? ? ACC _]; subst. destruct (proj2 S1 ACC) as [v Hv]. congruence.
+  Qed.
+
+  Lemma accepted_plain_fields_flatten cd fs :
+    Forall (fun rf => Forall attr_shaped (rf_attrs rf)) fs -> forallb (fun rf => field_wf (rf_attrs rf)) fs = true ->
+    List.length (filter (fun f => is_some (f_flatten f)) (map (fun rf => fst (from_field cd rf)) fs))
+    = List.length (filter (fun rf => is_flatten_field (rf_attrs rf)) fs).
+  Proof.
+    induction 1 as [|rf r SH _ IH]; [reflexivity|]. cbn [forallb filter map]. intros W. apply andb_true_iff in W as [W1 W2].
+    specialize (IH W2).
+    assert (E : snd (from_field cd rf) = []).
+    { unfold Resolve.from_field. pose proof (proj2 (field_chain_is_the_reading reparse reparse_preds rf SH) W1) as E.
+      destruct (parse_attributes field_step (field0 rf) (rf_attrs rf)). exact E. }
+    rewrite (accepted_field_flatten cd rf SH E). destruct (is_flatten_field (rf_attrs rf)); cbn [List.length]; now rewrite IH.
+  Qed.
+
+  Definition vrel (rv : rvariant) (v : vopts) : Prop :=
+    word_true v = variant_has_word rv /\ v_fields v = map (fun rf => fst (from_field false rf)) (rv_fields rv).
+
+  Lemma words_length rvs vs : Forall2 vrel rvs vs ->
+    List.length (flat_map (fun v => match v_word v with Some (true, s) => [s] | _ => [] end) vs)
+    = List.length (filter variant_has_word rvs).
+  Proof.
+    induction 1 as [|rv v r vr [W _] _ IH]; [reflexivity|]. cbn [flat_map filter]. rewrite app_length, IH.
+    unfold word_true in W. rewrite <- W. destruct (v_word v) as [[[] s]|]; reflexivity.
+  Qed.
+
+  Lemma variants_flatten rvs vs : Forall2 vrel rvs vs ->
+    Forall (fun rv => Forall (fun rf => Forall attr_shaped (rf_attrs rf)) (rv_fields rv)) rvs ->
+    Forall variant_accepted rvs ->
+    (flat_map (fun v => flatten_errors (v_fields v)) vs = []
+     <-> Forall (fun rv => (List.length (filter (fun rf => is_flatten_field (rf_attrs rf)) (rv_fields rv)) <= 1)%nat) rvs).
+  Proof.
+    induction 1 as [|rv v r vr [_ F] _ IH]; intros SH ACC; [cbn; split; [constructor|reflexivity]|].
+    inversion SH as [|? ? SHf SHr]; subst. inversion ACC as [|? ? [_ [FW _]] ACr]; subst.
+    cbn [flat_map]. rewrite app_nil_iff, (IH SHr ACr), flatten_errors_nil, F, (accepted_plain_fields_flatten false (rv_fields rv) SHf FW).
+    split; [intros [A B]; constructor; assumption|intros H; inversion H; auto].
+  Qed.
+
+  Theorem resolve_enum_is_the_reading t d rvs :
+    rd_body d = REnum rvs ->
+    Forall attr_shaped (rd_attrs d) ->
+    Forall (fun rv => Forall attr_shaped (rv_attrs rv) /\ Forall (fun rf => Forall attr_shaped (rf_attrs rf)) (rv_fields rv)) rvs ->
+    ((exists c b, resolve t d = Accepted c b)
+     <-> well_formed_10 t d = true /\ no_default_after_from_ident (rd_attrs d)).
+  Proof.
+    intros B SHc SHv. unfold Resolve.resolve, Spec.C10.well_formed_10. rewrite B.
+    pose proof (container_chain_is_the_reading reparse reparse_preds t (rd_attrs d) SHc) as CC.
+    destruct (parse_attributes (container_step t) copts0 (rd_attrs d)) as [c errs] eqn:PA. cbn [snd] in CC.
+    destruct (is_outer t) eqn:O.
+    { (* an element-level trait never takes an enum *)
+      split; [|intros [H _]; discriminate]. intros [c0 [b0 H]]. exfalso. destruct errs; [|discriminate].
+      unfold Resolve.resolve_body in H. rewrite B, O in H. discriminate H. }
+    destruct t; try discriminate.
+    destruct errs as [|e es].
+    - destruct (proj1 CC eq_refl) as [CW [items [A D]]].
+      assert (E : snd (parse_attributes (container_step DFromMeta) copts0 (rd_attrs d)) = []) by now rewrite PA.
+      pose proof (accepted_container_records DFromMeta (rd_attrs d) SHc E) as [_ RW]. rewrite PA in RW. cbn [fst] in RW.
+      rewrite CW. cbn [andb].
+      unfold Resolve.resolve_body. rewrite B. cbn [is_outer].
+      change (fold_left _ rvs ([], [])) with (fold_left vstep rvs ([], [])).
+      destruct (variants_fold_spec rvs SHv []) as [V1 V2].
+      destruct (fold_left vstep rvs ([], [])) as [vs verrs] eqn:VF. cbn [fst snd] in V1, V2.
+      assert (SHf : Forall (fun rv => Forall (fun rf => Forall attr_shaped (rf_attrs rf)) (rv_fields rv)) rvs)
+        by (revert SHv; apply Forall_impl; tauto).
+      destruct verrs as [|ve ves].
+      + pose proof (proj1 V1 eq_refl) as ACC. destruct (V2 ACC) as [vs' [-> REL]]. cbn [app] in *.
+        pose proof (words_length rvs vs' REL) as WL. pose proof (variants_flatten rvs vs' REL SHf ACC) as VFl.
+        set (words := flat_map (fun v => match v_word v with Some (true, s) => [s] | _ => [] end) vs') in *.
+        assert (FW : forallb variant_wf rvs = true <-> Forall (fun rv => (List.length (filter (fun rf => is_flatten_field (rf_attrs rf)) (rv_fields rv)) <= 1)%nat) rvs).
+        { rewrite forallb_forall, Forall_forall. rewrite Forall_forall in ACC. split.
+          - intros H rv Hin. now apply (variant_wf_split rv), H.
+          - intros H rv Hin. apply variant_wf_split. split; [now apply ACC|now apply H]. }
+        assert (HW : existsb variant_has_word rvs = negb (Nat.eqb (List.length words) 0)).
+        { rewrite WL. rewrite <- existsb_filter. now rewrite negb_involutive. }
+        rewrite HW, <- WL, <- RW. cbn [app].
+        destruct (flat_map (fun v => flatten_errors (v_fields v)) vs') as [|fe fes] eqn:V0.
+        * assert (FWt : forallb variant_wf rvs = true) by (apply FW, VFl; reflexivity). rewrite FWt. cbn [andb app].
+          destruct words as [|w1 [|w2 wr]]; cbn [List.length Nat.leb Nat.eqb negb andb map app];
+            destruct (c_from_word c); cbn [is_some andb negb app];
+            split; try (intros _; split; [reflexivity|exists items; auto]); try (intros [cc [bb H]]; discriminate);
+            try (intros [H _]; discriminate); eauto.
+        * assert (FWf : forallb variant_wf rvs = false).
+          { destruct (forallb variant_wf rvs); [|reflexivity]. assert (X : fe :: fes = []) by (apply VFl, FW; reflexivity). discriminate. }
+          rewrite FWf. cbn [andb]. split; [intros [cc [bb H]]; discriminate|intros [H _]; discriminate].
+      + assert (FWf : forallb variant_wf rvs = false).
+        { destruct (forallb variant_wf rvs) eqn:FWt; [|reflexivity]. exfalso.
+          assert (ACC : Forall variant_accepted rvs).
+          { rewrite forallb_forall in FWt. apply Forall_forall. intros rv Hin. now apply (variant_wf_split rv), FWt. }
+          assert (X : ve :: ves = []) by (now apply V1). discriminate. }
+        rewrite FWf. cbn [andb]. split; [intros [cc [bb H]]; discriminate|intros [H _]; discriminate].
+    - split; [intros [c0 [b0 H]]; discriminate|].
+      intros [W [items [A D]]]. exfalso. repeat rewrite andb_true_iff in W. destruct W as [[[W _] _] _].
+      assert (X : e :: es = []) by (apply CC; split; [exact W|exists items; auto]). discriminate.
+  Qed.
+
+  (** *** the whole derive *)
+  (** what a declaration read from syn looks like: its `#[darling ..]` attributes are never bare
+      literals, and the fields of a tuple struct have no identifier *)
+  Definition decl_shaped (d : rdecl) : Prop :=
+    Forall attr_shaped (rd_attrs d)
+    /\ match rd_body d with
+       | RStruct style rfs _ =>
+           Forall (fun rf => Forall attr_shaped (rf_attrs rf)) rfs
+           /\ (style = StTuple -> Forall (fun rf => rf_ident rf = None) rfs)
+       | REnum rvs =>
+           Forall (fun rv => Forall attr_shaped (rv_attrs rv) /\ Forall (fun rf => Forall attr_shaped (rf_attrs rf)) (rv_fields rv)) rvs
+       | RUnion => True
+       end.
+
+  (** THE COMPOSITION: for each of the six derives and every declaration - struct, enum or union, any
+      options anywhere, in any order and any split over attributes - the derive emits an
+      implementation exactly when the declaration is well-formed in the sense of Spec/C10.v (the
+      reading evaluated on the code in every run) and no `default` is written after a `from_ident`
+      on the container (the recorded finding). *)
+  Theorem resolve_is_the_reading t d :
+    decl_shaped d ->
+    ((exists c b, resolve t d = Accepted c b)
+     <-> well_formed_10 t d = true /\ no_default_after_from_ident (rd_attrs d)).
+  Proof.
+    intros [SHc SHb]. destruct (rd_body d) as [style rfs fspan|rvs|] eqn:B.
+    - destruct SHb as [SHf TU]. now apply (resolve_struct_is_the_reading t d style rfs fspan).
+    - now apply (resolve_enum_is_the_reading t d rvs).
+    - unfold Resolve.resolve, Spec.C10.well_formed_10. rewrite B. split; [intros [c [b H]]; discriminate|intros [H _]; discriminate].
   Qed.
 End Compose.
